@@ -38,7 +38,7 @@ ECP = dict(
 )
 HARNESSES = [RSA, PSS, ECP]  # DH: no verdict within the cap yet (heap-backed bignums), see DESIGN.md
 PROPERTY = dict(level='model_checking',
-    claim='PKCS#1 v1.5 signature decoding accepts a recovered block iff it is the unique encoding 00 01 FF..FF 00 DigestInfo H (NULL or absent parameters) and returns exactly H; a signature whose length differs from the modulus length is refused before the key is used. The RSA operation is an arbitrary-block stub. EMSA-PSS verification accepts exactly the RFC 8017 9.1.2 encodings (trailer, zero leftmost bits, 00..00 01 salt, recomputed hash equal to H), MGF1 and hash as arbitrary-output stubs.',
+    claim='PKCS#1 v1.5 signature decoding accepts a recovered block iff it is the unique encoding 00 01 FF..FF 00 DigestInfo H (NULL or absent parameters) and returns exactly H; a signature whose length differs from the modulus length is refused before the key is used. The RSA operation is an arbitrary-block stub. EMSA-PSS verification accepts exactly the RFC 8017 9.1.2 encodings (trailer, zero leftmost bits, 00..00 01 salt, recomputed hash equal to H), MGF1 and hash as arbitrary-output stubs. psEccDsaVerify parses r and s strictly inside the signature bytes it was given.',
     bounds='modulus 96 bytes (thorough 128); SHA-1/256/384/512',
     outside='PSS with other hashes / sizes than SHA-1 and a 26-byte EM (same code path), ECDSA r/s range (only the DER parse window is decided), DH public value range (harness exists, no verdict within the cap), point validation, the group arithmetic itself',
     explanation='PKCS#1 v1.5 signature decoding accepts a recovered block iff it is the unique encoding 00 01 FF..FF 00 DigestInfo H (NULL or absent parameters) and returns exactly H; a signature whose length differs from the modulus length is refused before the key is used. The RSA operation is an arbitrary-block stub.',
